@@ -11,6 +11,7 @@ Line protocol for C05 (reactions conserve atoms and mass and convert exactly X).
   setbasis <name> <mol|wt>          → as `rxn`
   copybasis <new> <orig> <mol|wt> [how=copy|setter]   → as `rxn`, for the new object (`orig.copy(basis=…)`)
   show <name>                       → as `rxn` (the stored single reaction as it is now)
+  repkg <name> <k>                  → as `rxn`: `rxn.reset_chemicals(package k)`
   balance <name> constants=<IDs|-> x=<rows>   → as `rxn`: `correct_atomic_balance(constants)`; `x` = the balanced
                                       stoichiometry by mol the external solve must produce (monitored)
   rxn … correct=1 x=<rows>          the constructor flag `correct_atomic_balance=True`
@@ -372,6 +373,23 @@ def step (st : St) (line : String) : St × String :=
           -- (the solve is floating point: never exact)
           (st.put name { e with o := o', bal := true, ex := false }, showRxn o' rx' true false)
       | _, _ => (st, "bad-op")
+    | _, _ => (st, "bad-op")
+  | ["repkg", name, k] =>
+    -- `rxn.reset_chemicals(<package k>)` on a single reaction
+    match st.obj name, k.toNat?.bind st.pkg with
+    | none, _ => (st, "noref")
+    | some e, some pk =>
+      let o := e.o
+      match o.kind with
+      | .member (.single rx) =>
+        if pk.ids == o.pkg then (st, showRxn o rx e.bal e.ex) else
+        match rx.repackage o.pkg pk.ids o.nRows with
+        | .error err => (st, errLine err)
+        | .ok rx' =>
+          let o' := { o with kind := .member (.single rx'), pkg := pk.ids, mw := pk.mw }
+          -- (a weight-basis stoichiometry is carried over as it is: same chemicals, same molecular weights)
+          (st.put name { e with o := o' }, showRxn o' rx' e.bal e.ex)
+      | _ => (st, "bad-op")
     | _, _ => (st, "bad-op")
   | ["show", name] =>
     match st.obj name with
